@@ -128,6 +128,16 @@ func ZZC08CLISeed() {
 	zzAssume(seed != 0)
 	path := zzFSPath("r.evy")
 	zzFSPut(path, "print (rand 1000) (rand 6) (rand1)\nfor range 2\n    print (rand 10)\nend\n", 0o644)
+	if !zzSymbolic() {
+		// native confirmation: the real binary, two processes with the same seed
+		o1, _, c1, ok := zzNativeCLI("run", "--rand-seed", fmt.Sprint(seed), path)
+		o2, _, c2, _ := zzNativeCLI("run", "--rand-seed", fmt.Sprint(seed), path)
+		if ok {
+			zzAssert(c1 == -1 && c2 == -1, "C08 cli seed: the program runs")
+			zzAssert(o1 == o2, "C08 cli seed: two runs with the same --rand-seed print the same random numbers")
+		}
+		return
+	}
 	run := func() string {
 		c := &runCmd{Source: path, RandSeed: seed}
 		err := c.Run()
